@@ -452,6 +452,18 @@ def ctor_cases():
             for st in (P, Mi):
                 add(f"SYS from_single_intervals(parents {k1} / {k2},{st.name})",
                     lambda p1=p1, p2=p2, st=st: CompoundInterval.from_single_intervals([SingleInterval(0, 2, st, p1()), SingleInterval(4, 7, st, p2())]), must_refuse=k1 != k2)
+    # a named parent and a parent WITHOUT a name are different parents for every operation that compares parents
+    named = lambda: Parent(id="chr1", sequence_type="chromosome")
+    nameless = lambda: Parent(sequence_type="chromosome")
+    for k1, p1, k2, p2 in (("named", named, "nameless", nameless), ("nameless", nameless, "named", named)):
+        A_ = lambda p1=p1: SingleInterval(0, 5, P, p1())
+        B_ = lambda p2=p2: SingleInterval(3, 8, P, p2())
+        add(f"SYS union(parent {k1} / {k2})", lambda A_=A_, B_=B_: A_().union(B_()), must_refuse=True)
+        add(f"SYS union_preserve_overlaps(parent {k1} / {k2})", lambda A_=A_, B_=B_: A_().union_preserve_overlaps(B_()), must_refuse=True)
+        add(f"SYS distance_to(parent {k1} / {k2})", lambda A_=A_, B_=B_: A_().distance_to(B_()), must_refuse=True)
+        add(f"SYS location_relative_to(parent {k1} / {k2})", lambda A_=A_, B_=B_: A_().location_relative_to(B_()), must_refuse=True)
+        for opn in ("intersection", "has_overlap", "minus", "contains"):
+            add(f"SYS {opn}(strict, parent {k1} / {k2})", lambda A_=A_, B_=B_, opn=opn: getattr(A_(), opn)(B_(), strict_parent_compare=True), must_refuse=True)
     # alphabet refusal does not depend on what was validated before: for every ordered pair of alphabets (A, B) and every
     # text valid under A but not under B, the text is first accepted under A and must then still be refused under B
     for A in Alphabet:
